@@ -622,19 +622,37 @@ func (t *c09Tree) judge(strict bool) (string, []string) {
 			first = fmt.Sprintf(format, args...)
 		}
 	}
-	// K4 at the source level: NUL bytes or an escaped newline glued between two non-blank bytes, i.e.
-	// inside a word, name, keyword or operator.  Positions that the parser derives from token lengths
-	// (name=, `$'`, time, …) are then short by the dropped bytes.
-	glued := false
+	// K4, narrowed to the token: a NUL byte or an escaped newline that the lexer drops, glued between
+	// two non-blank bytes — i.e. inside a word, name, keyword or operator.  A position that the parser
+	// derives from a token's length (name=, `$'`, time, fi, …) is short by the dropped bytes.  Only a
+	// violation at an offset inside the same blank-delimited run, after the dropped bytes, is in
+	// the region.  A backslash-newline inside single quotes or a comment is literal text, nothing is
+	// dropped there.
+	literal := make([]bool, n+1)
+	for _, cn := range t.nodes {
+		var a, b int
+		switch x := cn.Node.(type) {
+		case *syntax.SglQuoted:
+			a, b = int(x.Left.Offset()), int(x.Right.Offset())
+		case *syntax.Comment:
+			a, b = int(cn.pos.Offset()), int(cn.end.Offset())
+		default:
+			continue
+		}
+		for k := a; k < b && k < n; k++ {
+			literal[k] = true
+		}
+	}
 	isBlank := func(b byte) bool { return b == ' ' || b == '\t' || b == '\n' || b == '\r' }
-	for i := 1; i < n && !glued; i++ {
+	glue := make([]bool, n+1) // bytes of glued dropped sequences
+	for i := 1; i < n; i++ {
 		j := i
 		switch {
 		case src[i] == 0:
 			j = i + 1
-		case strings.HasPrefix(src[i:], "\\\n"):
+		case strings.HasPrefix(src[i:], "\\\n") && !literal[i]:
 			j = i + 2
-		case strings.HasPrefix(src[i:], "\\\r\n"):
+		case strings.HasPrefix(src[i:], "\\\r\n") && !literal[i]:
 			j = i + 3
 		default:
 			continue
@@ -642,11 +660,31 @@ func (t *c09Tree) judge(strict bool) (string, []string) {
 		for j < n && src[j] == 0 {
 			j++
 		}
-		glued = !isBlank(src[i-1]) && j < n && !isBlank(src[j])
+		if (!isBlank(src[i-1]) || glue[i-1]) && j < n && !isBlank(src[j]) {
+			for k := i; k < j; k++ {
+				glue[k] = true
+			}
+		}
+		i = j - 1
 	}
-	reportG := func(region string, format string, args ...any) {
-		if region == "" && glued {
-			region = "K4"
+	k4at := func(off int) bool {
+		for k := min(off, n) - 1; k >= 0; k-- {
+			if glue[k] {
+				return true
+			}
+			if isBlank(src[k]) {
+				return false
+			}
+		}
+		return false
+	}
+	reportG := func(region string, offs []int, format string, args ...any) {
+		if region == "" {
+			for _, o := range offs {
+				if k4at(o) {
+					region = "K4"
+				}
+			}
 		}
 		report(region, format, args...)
 	}
@@ -684,15 +722,16 @@ func (t *c09Tree) judge(strict bool) (string, []string) {
 		if int(p.Line()) != l || int(p.Col()) != c {
 			region := ""
 			ls := off - (c - 1) // start of the line holding off
+			sameLine := int(p.Line()) == l
 			switch {
-			case ls >= 3 && src[ls-3:ls] == "\\\r\n":
-				region = "K1"
-			case off == n && strings.HasSuffix(src, "\\"):
+			case sameLine && int(p.Col()) == c+1 && ls >= 3 && src[ls-3:ls] == "\\\r\n":
+				region = "K1" // exactly one column too many on a line that follows backslash-CR-LF
+			case sameLine && int(p.Col()) == c+1 && off == n && strings.HasSuffix(src, "\\"):
 				region = "K8"
-			case off > 0 && off < n && src[off-1] == '\\' && (src[off] == '\n' || strings.HasPrefix(src[off:], "\r\n")):
-				region = "K2"
+			case sameLine && int(p.Col()) == c-1 && off > 0 && off < n && !literal[off-1] && src[off-1] == '\\' && (src[off] == '\n' || strings.HasPrefix(src[off:], "\r\n")):
+				region = "K2" // the position was taken on the escaped newline itself: offset of the byte after the backslash, column of the backslash
 			}
-			reportG(region, "%s of %s is %d:%d at offset %d, but that byte is at line %d col %d", what, cn.Type, p.Line(), p.Col(), off, l, c)
+			reportG(region, []int{off}, "%s of %s is %d:%d at offset %d, but that byte is at line %d col %d", what, cn.Type, p.Line(), p.Col(), off, l, c)
 		}
 	}
 	for _, cn := range t.nodes {
@@ -712,7 +751,7 @@ func (t *c09Tree) judge(strict bool) (string, []string) {
 			if k6[cn.ID] {
 				region = "K6"
 			}
-			reportG(region, "%s: Pos() %d is after End() %d", cn.Type, cn.pos.Offset(), cn.end.Offset())
+			reportG(region, []int{int(cn.pos.Offset()), int(cn.end.Offset())}, "%s: Pos() %d is after End() %d", cn.Type, cn.pos.Offset(), cn.end.Offset())
 		}
 		checkLC(cn, "Pos()", cn.pos, false)
 		checkLC(cn, "End()", cn.end, true)
@@ -744,7 +783,7 @@ func (t *c09Tree) judge(strict bool) (string, []string) {
 			}
 			if end < 0 {
 				got := src[off:min(n, off+12)]
-				reportG("", "%s.%s at offset %d should point at %q, but the source there is %q", cn.Type, a.field, off, a.want[0], got)
+				reportG("", []int{off}, "%s.%s at offset %d should point at %q, but the source there is %q", cn.Type, a.field, off, a.want[0], got)
 				continue
 			}
 			cn.toks = append(cn.toks, [2]int{off, end - off})
@@ -755,7 +794,7 @@ func (t *c09Tree) judge(strict bool) (string, []string) {
 					// backslash of an escape inside backquotes) and End() is start + len(token)
 					region = "K4"
 				}
-				reportG(region, "%s.End() is offset %d, but its closing %q at offset %d ends at %d (End must be one past the last byte of the node)", cn.Type, cn.end.Offset(), a.want[0], off, end)
+				reportG(region, []int{int(cn.end.Offset()), end}, "%s.End() is offset %d, but its closing %q at offset %d ends at %d (End must be one past the last byte of the node)", cn.Type, cn.end.Offset(), a.want[0], off, end)
 			}
 		}
 		// (5) literals
@@ -770,7 +809,7 @@ func (t *c09Tree) judge(strict bool) (string, []string) {
 			if p <= e && e <= n && !m.spans(p, e, want) {
 				region := ""
 				midEsc := func(o int) bool {
-					return o > 0 && o < n && src[o-1] == '\\' && (src[o] == '\n' || strings.HasPrefix(src[o:], "\r\n"))
+					return o > 0 && o < n && !literal[o-1] && src[o-1] == '\\' && (src[o] == '\n' || strings.HasPrefix(src[o:], "\r\n"))
 				}
 				switch {
 				case midEsc(e) && m.spans(p, e-1, want):
@@ -781,7 +820,7 @@ func (t *c09Tree) judge(strict bool) (string, []string) {
 				if t.lang == syntax.LangZsh && l.Value == "$" && e == p+2 && strings.IndexByte("#%+~=^", src[p+1]) >= 0 {
 					region = "K7"
 				}
-				reportG(region, "Lit %q spans offsets [%d,%d) = %q, which is not that text", want, p, e, src[p:e])
+				reportG(region, []int{p, e}, "Lit %q spans offsets [%d,%d) = %q, which is not that text", want, p, e, src[p:e])
 			}
 		}
 		if q, ok := cn.Node.(*syntax.SglQuoted); ok {
@@ -790,7 +829,7 @@ func (t *c09Tree) judge(strict bool) (string, []string) {
 				p++
 			}
 			if p <= e && e <= n && !m.spans(p, e, q.Value) {
-				reportG("", "SglQuoted value %q lies at offsets [%d,%d) = %q, which is not that text", q.Value, p, e, src[p:e])
+				reportG("", []int{p, e}, "SglQuoted value %q lies at offsets [%d,%d) = %q, which is not that text", q.Value, p, e, src[p:e])
 			}
 		}
 	}
@@ -827,7 +866,7 @@ func (t *c09Tree) judge(strict bool) (string, []string) {
 			case k6[cn.ID] || k6[par.ID]:
 				region = "K6"
 			}
-			reportG(region, "%s [%d,%d) in field %s lies outside its parent %s [%d,%d)", cn.Type, cn.pos.Offset(), cn.end.Offset(), cn.slotName, par.Type, par.pos.Offset(), par.end.Offset())
+			reportG(region, []int{int(cn.pos.Offset()), int(cn.end.Offset()), int(par.pos.Offset()), int(par.end.Offset())}, "%s [%d,%d) in field %s lies outside its parent %s [%d,%d)", cn.Type, cn.pos.Offset(), cn.end.Offset(), cn.slotName, par.Type, par.pos.Offset(), par.end.Offset())
 		}
 	}
 	for _, cn := range t.nodes {
@@ -839,10 +878,10 @@ func (t *c09Tree) judge(strict bool) (string, []string) {
 			}
 			if prev != nil && prev.Slot == kn.Slot {
 				if prev.pos.Offset() > kn.pos.Offset() {
-					reportG("", "%s.%s is not in source order: %s at %d is listed before %s at %d", cn.Type, kn.slotName, prev.Type, prev.pos.Offset(), kn.Type, kn.pos.Offset())
+					reportG("", []int{int(prev.pos.Offset()), int(kn.pos.Offset())}, "%s.%s is not in source order: %s at %d is listed before %s at %d", cn.Type, kn.slotName, prev.Type, prev.pos.Offset(), kn.Type, kn.pos.Offset())
 				}
 				if prev.end.Offset() > kn.pos.Offset() && !hdocEnds[int(prev.end.Offset())] {
-					reportG("", "%s.%s overlap: %s [%d,%d) and the next %s starts at %d", cn.Type, kn.slotName, prev.Type, prev.pos.Offset(), prev.end.Offset(), kn.Type, kn.pos.Offset())
+					reportG("", []int{int(prev.end.Offset()), int(kn.pos.Offset())}, "%s.%s overlap: %s [%d,%d) and the next %s starts at %d", cn.Type, kn.slotName, prev.Type, prev.pos.Offset(), prev.end.Offset(), kn.Type, kn.pos.Offset())
 				}
 			}
 			prev = kn
@@ -1028,6 +1067,15 @@ var c09Handmade = []string{
 	"a \\\n b",
 	"a\\\nb c",
 	"echo 'a\\\nb'",
+	"echo 'one\\\ntwo' three",
+	"echo $'one\\\ntwo' three four",
+	"echo \"one\\\ntwo\" three 'x' \"y\"",
+	"x='a\\\nbcd' y=1 z",
+	"echo a # one\\\ntwo three",
+	"cat <<EOF\none\\\ntwo $x three\nEOF\necho after text",
+	"cat <<'EOF'\none\\\ntwo three\nEOF\necho after text",
+	"echo 'a\\\nbc''d\\\nef' \"g\\\nhi\" j; k l",
+	"echo 'one\\\r\ntwo' three",
 	"echo \"a\\\nb\"",
 	"éa=日本 echo ß€ '𝛼' \"😀\"",
 	"echo a\tb\t\tc",
@@ -1064,6 +1112,48 @@ var c09Handmade = []string{
 	"echo $# $? $$ $! $- $0 $@ $*",
 }
 
+// c09EscnlText is a statement holding a backslash-newline inside quoted text, a comment or a
+// here-document body, FOLLOWED by further tokens on the same source line: whatever the lexer does
+// with the columns while it reads the text shows in the positions of those tokens.
+func c09EscnlText(r *Rand) string {
+	w := func() string {
+		n := 1 + r.Intn(6)
+		b := make([]byte, n)
+		for i := range b {
+			b[i] = byte('a' + r.Intn(26))
+		}
+		return string(b)
+	}
+	nl := "\\\n"
+	if r.Chance(10) {
+		nl = "\\\r\n"
+	}
+	tail := ""
+	for i, k := 0, 1+r.Intn(3); i < k; i++ {
+		tail += " " + r.Pick([]string{w(), "'" + w() + "'", "\"" + w() + "\"", "$" + w(), ">" + w(), "| " + w(), "&& " + w(), "; " + w()})
+	}
+	switch r.Intn(9) {
+	case 0:
+		return "echo '" + w() + nl + w() + "'" + tail
+	case 1:
+		return "echo $'" + w() + nl + w() + "'" + tail
+	case 2:
+		return "echo \"" + w() + nl + w() + "\"" + tail
+	case 3:
+		return w() + "='" + w() + nl + w() + "' " + w() + tail
+	case 4:
+		return "echo " + w() + " # " + w() + nl + w() + tail
+	case 5:
+		return "cat <<EOF\n" + w() + nl + w() + " $" + w() + " " + w() + "\nEOF\necho" + tail
+	case 6:
+		return "cat <<'EOF'\n" + w() + nl + w() + " " + w() + "\nEOF\necho" + tail
+	case 7:
+		return "echo '" + w() + nl + w() + "'\"" + w() + nl + w() + "\"'" + w() + "'" + tail
+	default:
+		return "echo '" + w() + nl + nl + w() + nl + w() + "' \"" + w() + "\"" + tail
+	}
+}
+
 func c09Sources(c *Ctx) (srcs []string, tags [][]string) {
 	add := func(s string, t ...string) {
 		srcs = append(srcs, s)
@@ -1094,13 +1184,29 @@ func c09Sources(c *Ctx) (srcs []string, tags [][]string) {
 			s, t := c09Hostile(c.R, base, os.Getenv("C09_INSIDE") != "" || c.R.Chance(15))
 			add(s, append([]string{kind}, t...)...)
 		}
+		if c.R.Chance(25) {
+			// quoted text, comments, here-documents with an escaped newline and tokens after them
+			last := srcs[len(srcs)-1]
+			text := c09EscnlText(c.R)
+			switch c.R.Intn(3) {
+			case 0:
+				add(text, "src=escnl-text")
+			case 1:
+				add(text+"\n"+last, "src=escnl-text")
+			default:
+				if !strings.HasSuffix(last, "\n") {
+					last += "\n"
+				}
+				add(last+text+"\n", "src=escnl-text")
+			}
+		}
 	}
 	return
 }
 
 func c09(c *Ctx) {
 	c.Rule = "sources: hand-made programs covering every node type, the repository's own test inputs, grammar-generated programs; 70% made position-hostile " +
-		"(CRLF, NUL bytes, backslash-newline between tokens, tabs, multi-byte runes inside words); each parsed in all five variants with comments kept; " +
+		"(CRLF, NUL bytes, backslash-newline between tokens, tabs, multi-byte runes inside words); a quarter followed by quoted text / comments / here-documents holding a backslash-newline with further tokens on the same line; each parsed in all five variants with comments kept; " +
 		"non-trivial = parsed tree has ≥ 6 nodes; distinct by (variant, source); plus boundary/random Pos arithmetic cases"
 	c09PosTie(c)
 	types := allNodeStructs()
